@@ -24,13 +24,13 @@ def auditNeed (sc : Spec.Server.Scan) (rv : ReqView) : Nat :=
 def auditLimit (sc : Spec.Server.Scan) (udp : Bool) : Nat := if udp then sc.limitUdp else 65535
 
 /-- **the "does not fit" clauses**: TC set, extended RCODE 0, no data, no TSIG record ⇒ no tag -/
-theorem auditResponse_nofit (hm : Hm) (sc : Spec.Server.Scan) (rv : ReqView) (now : Nat) (udp : Bool) (reqId : Nat)
+theorem auditResponse_nofit (hm : Hm) (sc : Spec.Server.Scan) (rv : ReqView) (now : Nat) (udp : Bool) (reqId : Nat) (cmp : Bool)
     (b : Bytes) (plain : Resp) (d : Spec.DMsg) (hd : Spec.specDecodeMsg b = some d)
     (hfit : ¬ auditNeed sc rv ≤ auditLimit sc udp)
     (htc : d.tc = true) (hrc : d.rcode = 0) (hnd : Spec.Server.noData d = true)
     (hopt : ∀ o ∈ d.ar, o.ty = 41 → o.rawTtl / 16777216 = 0)
     (hts : d.ar.filter (fun r => r.ty = 250) = []) :
-    (auditResponse hm sc rv now udp reqId (.bytes b) plain).1 = [] := by
+    (auditResponse hm sc rv now udp reqId cmp (.bytes b) plain).1 = [] := by
   unfold auditNeed auditLimit at hfit
   unfold auditResponse
   simp only [hd]
@@ -173,6 +173,82 @@ theorem auditLimit_eq (scA scM : Spec.Server.Scan) (hl : scA.limitUdp = scM.limi
     auditLimit scA (decide (tr = .udp)) = (match tr with | .udp => scM.limitUdp | .tcp => 65535) := by
   unfold auditLimit
   cases tr <;> simp [hl]
+
+/-! ### the branch "the reply fits", rejected requests -/
+
+/-- the TSIG error the audit expects -/
+def expErr : Outcome → Nat
+  | .authenticated => 0 | .badKey => 17 | .formErr => 16 | .badSig => 16 | .badTime => 18
+
+/-- the RCODE the audit expects of a rejected request -/
+def expRc : Outcome → Nat
+  | .formErr => 1 | _ => 9
+
+/-- the extended RCODE of the audit is the header's when every OPT record has extended-RCODE octet 0 -/
+theorem ext_zero (l : List Spec.DRr) (h : ∀ x ∈ l, x.rawTtl / 16777216 = 0) :
+    (match l with | [o] => o.rawTtl / 16777216 | _ => 0) = 0 := by
+  match l with
+  | [] => rfl
+  | [o] => exact h o (by simp)
+  | _ :: _ :: _ => rfl
+
+/-- **the audit of a rejected request whose reply fits**: every clause of `auditResponse`, as
+    hypotheses on the decoded response -/
+theorem auditResponse_rejected (hm : Hm) (sc : Spec.Server.Scan) (kn : List Octets) (f : RdataFields) (pre : Octets)
+    (o : Outcome) (key : Option KeyCfg) (now : Nat) (udp : Bool) (reqId : Nat) (cmp : Bool) (b : Bytes) (plain : Resp)
+    (d : Spec.DMsg) (t : Spec.DRr) (rf : RdataFields) (rkn : List Octets)
+    (hd : Spec.specDecodeMsg b = some d) (hfit : auditNeed sc ⟨kn, f, pre, o, key⟩ ≤ auditLimit sc udp)
+    (ho : o ≠ .authenticated)
+    (hts : d.ar.filter (fun r => r.ty = 250) = [t]) (hp : parseRdata t.rdata = some rf)
+    (hl : labelsOf t.owner = some rkn)
+    (hlast : d.ar.getLast?.map (·.ty) = some 250) (hcls : t.cls = 255) (httl : t.rawTtl = 0)
+    (hkn : rkn.map (·.map lower) = kn.map (·.map lower))
+    (halg : rf.algName.map (·.map lower) = f.algName.map (·.map lower))
+    (hfudge : rf.fudge = 300) (hoid : rf.originalId = f.originalId) (hid : d.id = reqId)
+    (herr : rf.error = expErr o) (hopt : ∀ x ∈ d.ar, x.ty = 41 → x.rawTtl / 16777216 = 0)
+    (hrc : d.rcode = expRc o)
+    (hmac : o ≠ .badTime → rf.mac = [])
+    (hmacT : o = .badTime → rf.mac.length = (outputSizeOf f.algName).getD 0 ∧
+      ∃ k, key = some k ∧ rf.mac = hm k.sha256 k.secret
+        (digestInput .response (b.extract 0 t.pos).toList rf.originalId
+          { keyName := rkn, algName := rf.algName, timeSigned := rf.timeSigned, fudge := rf.fudge,
+            error := rf.error, other := rf.other } f.mac))
+    (hother : o ≠ .badTime → rf.other = [] ∧ rf.timeSigned = now)
+    (hotherT : o = .badTime → rf.other = u48 now ∧ rf.timeSigned = f.timeSigned)
+    (hnd : Spec.Server.noData d = true) (htc : d.tc = false) (haa : d.aa = false) :
+    (auditResponse hm sc ⟨kn, f, pre, o, key⟩ now udp reqId cmp (.bytes b) plain).1 = [] := by
+  unfold auditNeed auditLimit at hfit
+  have hx := ext_zero (d.ar.filter (fun r => r.ty = 41)) (fun x hx => by
+    rw [List.mem_filter] at hx; exact hopt x hx.1 (of_decide_eq_true hx.2))
+  unfold auditResponse
+  simp only [hd]
+  rw [if_neg]
+  · simp only [hts, hp, hl]
+    cases o
+    · exact absurd rfl ho
+    · simp only [expErr, expRc] at herr hrc
+      have hm0 := hmac (by decide)
+      obtain ⟨ho1, ho2⟩ := hother (by decide)
+      simp [hlast, hcls, httl, hkn, halg, hfudge, hoid, hid, herr, hrc, hm0, ho1, ho2, hnd, htc, haa]
+      exact Nat.mul_eq_zero.mpr (Or.inr hx)
+    · simp only [expErr, expRc] at herr hrc
+      have hm0 := hmac (by decide)
+      obtain ⟨ho1, ho2⟩ := hother (by decide)
+      simp [hlast, hcls, httl, hkn, halg, hfudge, hoid, hid, herr, hrc, hm0, ho1, ho2, hnd, htc, haa]
+      exact Nat.mul_eq_zero.mpr (Or.inr hx)
+    · simp only [expErr, expRc] at herr hrc
+      have hm0 := hmac (by decide)
+      obtain ⟨ho1, ho2⟩ := hother (by decide)
+      simp [hlast, hcls, httl, hkn, halg, hfudge, hoid, hid, herr, hrc, hm0, ho1, ho2, hnd, htc, haa]
+      exact Nat.mul_eq_zero.mpr (Or.inr hx)
+    · simp only [expErr, expRc] at herr hrc
+      obtain ⟨hm1, k, hk, hm2⟩ := hmacT rfl
+      obtain ⟨ho1, ho2⟩ := hotherT rfl
+      simp [hlast, hcls, httl, hkn, halg, hfudge, hoid, hid, herr, hrc, hk, ho1, ho2, hnd, htc, haa]
+      refine ⟨Nat.mul_eq_zero.mpr (Or.inr hx), hm1, ?_⟩
+      rw [hm2]
+      simp [hoid, ho2, hfudge, herr, ho1]
+  · simp only [Bool.not_eq_true', decide_eq_false_iff_not, Classical.not_not]; exact hfit
 
 end QV.ServerScan
 
